@@ -1189,6 +1189,18 @@ SyntaxVisitor::Action TypeChecker::visitPrefixUnaryExpression(
             break;
         }
         case SyntaxKind::AmpersandToken: {
+            // A function designator that is the operand of unary & is not converted
+            // to a pointer (6.3.2.1-4): its address is the pointer to the function.
+            const ExpressionSyntax* operand = node->expression();
+            while (operand->kind() == SyntaxKind::ParenthesizedExpression)
+                operand = operand->asParenthesizedExpression()->expression();
+            if (ty_->kind() == TypeKind::Pointer
+                    && ty_->asPointerType()->referencedType()->kind() == TypeKind::Function
+                    && semaModel_->typeInfoOf(operand).undergoneConversion()
+                            == TypeInfo::UndergoneConversion::Yes) {
+                ty = ty_;
+                break;
+            }
             std::unique_ptr<PointerType> ptrTy(new PointerType(ty_));
             ty = semaModel_->keepType(std::move(ptrTy));
             break;
